@@ -129,6 +129,28 @@ def build(v, ns):
     return v
 
 
+def mutate_in_place(p, top):
+    """change every mutable object reachable from p without assigning to p's own attributes: lists grow, nested packets change"""
+    from bisturi.packet import Packet
+    for name, _, _, _ in p.get_fields():
+        try:
+            v = getattr(p, name)
+        except AttributeError:
+            continue
+        if isinstance(v, list):
+            for x in v:
+                if isinstance(x, Packet):
+                    mutate_in_place(x, False)
+            v.append(7)
+        elif isinstance(v, Packet):
+            mutate_in_place(v, False)
+        elif not top and isinstance(v, int) and not isinstance(v, bool):
+            try:
+                setattr(p, name, v ^ 1)
+            except Exception:
+                pass
+
+
 def outcome_of_exception(e):
     from bisturi.packet import PacketError
     if isinstance(e, PacketError):
@@ -184,6 +206,11 @@ def run_case(c, ns):
                 return {"ok": canon(p), "end": end, "packed": outcome_of_exception(e)}
         if op == "default":
             return {"ok": canon(build(c["value"], ns))}
+        if op == "default_after":
+            # a default-constructed packet, mutated in place as deep as it goes; then ANOTHER default-constructed packet
+            first = build(c["value"], ns)
+            mutate_in_place(first, True)
+            return {"ok": canon(build(c["value"], ns)), "first_after_mutation": canon(first)}
         if op == "derive":
             # pack a constructed value, then parse (and re-serialize) inputs derived from its encoding
             import random
